@@ -45,7 +45,63 @@ DISTR_RULE = ("sub-distributor graphs (1-5 sub-distributors; MAIN, module, base 
 def distr(profile, nq, nt):
     return {"kind": "distr", "profile": profile, "n_quick": nq, "n_thorough": nt, "per_shard": 20}
 
+APP_RULE = ("whole-application histories through real ABCI (InitChain with a generated genesis for the four custom modules, BeginBlock, DeliverTx with "
+            "signed transactions, EndBlock, Commit): a generated emission schedule (1-5 periods), a generated validated sub-distributor graph, two vesting "
+            "types, four funded accounts; 4-17 blocks with random block times (seconds to days apart, crossing period ends), 0-3 transactions per block "
+            "(create pool, withdraw, send to vesting account, create vesting account, bank send, signature link publication), random fees; in 70% of the "
+            "cases the state is exported at a random height, validated, imported into a fresh application and re-exported, and both applications run "
+            "the same remaining blocks; the minter's per-block observations are compared with the Coq model; non-trivial = something was minted; "
+            "distinct = distinct (schedule, final time)")
+
+def app(nq, nt, **kw):
+    d = {"kind": "app", "profile": "", "n_quick": nq, "n_thorough": nt, "per_shard": 10}
+    d.update(kw)
+    return d
+
+REPLICAS = [{"TZ": "UTC", "GOMAXPROCS": "1"}, {"TZ": "Asia/Tokyo", "GOMAXPROCS": "8"}, {"TZ": "America/St_Johns", "GOMAXPROCS": "3"}]
+
 PROPS = {
+    "C01": {
+        "title": "Supply changes only by scheduled mint minus configured burn",
+        "model": "Minter.v begin_block; Distributor.v bank (transfer, burn), dist_begin_block; Vest.v step (bank part)",
+        "runs": [app(100, 5000), distr("", 120, 5000), vest("", 40, 2000)],
+        "preds": ["C01.", "C03.conservation"],
+        "rule": APP_RULE + " | module-mode distributor and vesting generators as for C03 / C05",
+        "level_text": "Coq theorems: the minter's block adds exactly the minted amount (the growth of the schedule counters) to the supply; one whole "
+                      "distributor BeginBlock conserves, per denomination, the sum of all balances plus everything burned (induction over sources, "
+                      "sub-distributors and payouts), burning being the only sink; every vesting-world operation, accepted or rejected, over histories "
+                      "of any length conserves every denomination's total and only moves coins between two accounts. On the real application: after "
+                      "every BeginBlock supply delta = Mint event - bank burn events and supply = sum of all balances (full bank iteration); every "
+                      "delivered message keeps the supply and the tracked accounts' total.",
+    },
+    "C11": {
+        "title": "Replicas computing the same blocks reach the same state hash",
+        "model": "Validate.v (map-order independence of the validation decision); all model transitions are Gallina functions",
+        "runs": [app(40, 1500, replicas=REPLICAS)],
+        "preds": ["C11."],
+        "rule": APP_RULE + "; C11: every history is executed in three separate OS processes with different TZ and GOMAXPROCS; app hash after every Commit, "
+                "DeliverTx (code, codespace, data, events) and BeginBlock/EndBlock events are compared line by line",
+        "partial": ["Go-runtime nondeterminism (map iteration order, wall clock, local time zone, goroutine scheduling) lives outside any Gallina model: it is "
+                    "only exhibited by the multi-process differential runs; nondeterminism that needs another binary, architecture or Go version is not exhibited"],
+        "technique": "machine-checked proof in Coq (order-independence of the map-driven validation decision; functional models) + multi-process differential execution of the real application",
+        "level_text": "Coq theorems: the validation decision that iterates a Go map is the same for every iteration order (the reported id is not: F8 "
+                      "witness); all model transitions are functions of (state, input). The real application runs every generated history in three OS "
+                      "processes (different TZ, GOMAXPROCS) and app hashes, transaction results and events are compared after every block.",
+    },
+    "C12": {
+        "title": "Genesis export/import preserves state and subsequent behaviour",
+        "model": "Genesis.v: minter / distributor / vesting-type / signature export and import",
+        "runs": [app(160, 5000)],
+        "preds": ["C12.", "C10.block_processing_no_panic_after_import"],
+        "rule": APP_RULE,
+        "partial": ["the cfevesting pools / traces part of the genesis and the SDK modules' own export/import are covered by the application-level "
+                    "comparison only (re-export equality and identical behaviour of the restored application), not by a Coq theorem"],
+        "level_text": "Coq theorems: importing the exported minter genesis yields exactly the same parameters, state and history (history shape is an "
+                      "invariant of BeginBlock), hence identical later blocks; the same for the distributor after fix F4 (old import: computed panic "
+                      "witness); vesting-type periods survive the (unit, value) encoding exactly for whole seconds and imported periods are always whole "
+                      "seconds; K6 refuted by witness. On the real application: export at a random height, ModuleBasics.ValidateGenesis, InitChain of a "
+                      "fresh app, re-export equality per custom module, and identical balances / states / transaction results over the remaining blocks.",
+    },
     "C03": {
         "title": "Distributor books always match the coins it holds",
         "model": "Distributor.v: prepare_source, start_distribution, payout_all, dist_begin_block",
